@@ -37,6 +37,12 @@ def vectors():
             yield ["--no-colors"] + f + ["-R", w]
 
 
+def reduced_vectors():
+    """A small lattice (every option once alone, a few combinations) for the files outside the rotating quarter."""
+    return [[], ["-d"], ["-dd"], ["-f", "json"], ["-o"], ["--no-colors"], ["-R", "CheckDefine"], ["-R", "Foo"],
+            ["-d", "-f", "json"], ["-dd", "-o"], ["--no-colors", "-d", "-R", "CheckDefine"], ["-o", "-f", "json", "-dd", "-R", "Foo"]]
+
+
 def parse(stdout, is_json):
     """Presentation-independent result: [(basename, verdict, [(level, code, line, col)])]."""
     if is_json:
@@ -68,7 +74,8 @@ def define_lines(text):
 
 def file_task(task):
     """Worker: one file under all 96 option vectors + inline-content variants."""
-    fname, text = task
+    fname, text = task[0], task[1]
+    reduced = len(task) > 2 and task[2]
     d = tempfile.mkdtemp(prefix="mcverif_c16_")
     probs = []
     n = 0
@@ -78,7 +85,7 @@ def file_task(task):
             f.write(text)
         base = None
         dl = define_lines(text)
-        for vec in vectors():
+        for vec in (reduced_vectors() if reduced else vectors()):
             n += 1
             o = impl.run_cli(vec + [path])
             if o["exc"] is not None:
@@ -175,10 +182,11 @@ def files_for(tier, seed):
     out += define_dense()
     # sample inputs of norminette's own tests that are analysed to a verdict (a rotating quarter in the quick tier)
     from .. import corpus
-    for fn, tx in (corpus.samples() if tier != "quick" else corpus.sample_slice(seed, 4)):
+    full = set(fn for fn, _ in (corpus.samples() if tier != "quick" else corpus.sample_slice(seed, 4)))
+    for fn, tx in corpus.samples():
         r = impl.run_text(fn, tx)
         if r.exc is None:
-            out.append((fn, tx))
+            out.append((fn, tx) if fn in full else (fn, tx, True))      # the others: the reduced lattice
     return out
 
 
@@ -188,7 +196,7 @@ def run(tier, seed):
     res = explore.pmap(file_task, files, chunksize=1)
     failures = []
     verdicts = {}
-    for (fname, text), (n, probs, verdict) in zip(files, res):
+    for (fname, text, *_), (n, probs, verdict) in zip(files, res):
         st.runs += n
         verdicts[verdict] = verdicts.get(verdict, 0) + 1
         for vec, clause, detail in probs:
@@ -199,7 +207,7 @@ def run(tier, seed):
     nv = len(list(vectors()))
     st.states = nv
     st.transitions = st.runs
-    st.outcomes = set(files)
+    st.outcomes = set(f[:2] for f in files)
     for k, v in verdicts.items():
         st.bump(f"files_with_verdict_{k}", v)
     if verdicts.get("Error", 0) == 0 or verdicts.get("OK", 0) == 0:
